@@ -388,6 +388,11 @@ func checkWire(c *core.Check, which string) {
 		"the client under test is NewClient(origin + normalised base path, HTTPClient); the HTTPClient hands the request to API.ServeHTTP in-process (a fresh server-side copy of line, headers and body)",
 		"status codes for default responses are in 200..499; response identity is the Go type returned (server and client share the generated types)",
 	}
+	// how bodies arrive on either side: every behaviour of Stream.tla's source, in turn (C09 owns the design check)
+	plans := streamPlans(c, which == "c09")
+	if plans == nil {
+		return
+	}
 	thorough := c.Tier == "thorough"
 	r, err := core.RunTLC(core.TLCOpts{Module: "MC_Wire", Workers: 2, Timeout: 5 * time.Minute})
 	if err != nil || r.Error != "" || r.InvViolated != "" {
@@ -496,7 +501,7 @@ func checkWire(c *core.Check, which string) {
 			for s := 0; s < nSeeds; s++ {
 				caseN++
 				cid := fmt.Sprintf("c%d", caseN)
-				g.Wire = append(g.Wire, driver.WireCase{ID: cid, Op: opID, Seed: rng.Int63(), RespSeed: rng.Int63n(1 << 40)})
+				g.Wire = append(g.Wire, driver.WireCase{ID: cid, Op: opID, Seed: rng.Int63(), RespSeed: rng.Int63n(1 << 40), Reads: plans[caseN%len(plans)]})
 				metaOf[cid] = opMeta{w: w, pkg: id, base: bsegs}
 				if s == 1 {
 					// a call whose response cannot be written (the client went away) in between: it is not judged itself,
